@@ -87,10 +87,24 @@ theorem similarity_code_is_theorem :
     spec transform of  c·e^{j2πθt}·K(at+b), provided the branch returns the spec's pair -/
 theorem model_forward_refines (pi : Rat) (t : Term) (e : GEntry) (ha : t.a ≠ 0)
     (hk : ∀ al, t.k ≠ .cpole 1 al) (hk' : ∀ al, t.k ≠ .expu 0 al) (h1 : t.k ≠ .one) (h2 : t.k ≠ .ramp) (h3 : t.k ≠ .inv1)
-    (h4 : t.k ≠ .inv2) (hl : Model.lookup t.k 0 = some e)
+    (h4 : t.k ≠ .inv2) (h5 : ∀ al, t.k ≠ .trap al) (hl : Model.lookup t.k 0 = some e)
     (hpair : entryE pi false e.terms = (ftKind pi t.k).map fun p => ⟨p.q, 0, 0, p.k, p.s, 0⟩) :
     Model.modelTerm pi false 0 t = some (ftTerm pi t) :=
-  model_forward_refines_aux pi t e ha similarity_code_is_theorem.1 similarity_code_is_theorem.2.1 hk hk' h1 h2 h3 h4 hl hpair
+  model_forward_refines_aux pi t e ha similarity_code_is_theorem.1 similarity_code_is_theorem.2.1 hk hk' h1 h2 h3 h4 h5 hl hpair
+
+/-- … and for the trapezoid, when the branch returns the pair (`trap_entry_is_pair` in Props/C12Trap.lean) -/
+theorem model_trap_refines (pi : Rat) (t : Term) (al : Rat) (ha : t.a ≠ 0) (hk : t.k = .trap al) (h : Gen.trapAlphaPow = some 0) :
+    Model.modelTerm pi false 0 t = some (ftTerm pi t) := by
+  obtain ⟨c, ph, th, k, a, b⟩ := t
+  simp only at ha hk
+  subst hk
+  have har := rabs_ne_zero ha
+  simp only [Model.modelTerm, Model.otherTerm, h, Option.bind_some,
+    simShift_forward a b _ similarity_code_is_theorem.1 similarity_code_is_theorem.2.1, Option.map_some, Option.some.injEq,
+    shiftE, smulE, modE, scaleE, List.map_map, ftTerm, ftKind, List.map_cons, List.map_nil, List.cons.injEq, and_true]
+  apply Term.ext' <;> simp only [Function.comp, shiftT, smulT, modT, scaleT]
+  · ext <;> simp [CQ.smul, CQ.mul_re, CQ.mul_im, CQ.ofRat, zpow, CQ.one_re, CQ.one_im] <;> ring
+  all_goals (simp; try (field_simp); try ring)
 
 /-! ## frequency variables -/
 
@@ -123,6 +137,36 @@ theorem norm_variants : ∀ c ∈ Gen.conversions, convOk c = true := by decide
 
 /-- the rows from the time domain's result (`fexpr.py`) to all four variables are right, so x(f), x(ω), x(F), x(Ω) are consistent -/
 theorem norm_variants_from_f : ∀ c ∈ Gen.conversions, c.src = .f → convOk c = true := by decide
+
+/-- the conversion methods of the four classes (GENERATED rows) ARE the spec's re-expression `X_E(v) = X_D((k_D/k_E)·v)`,
+    for every ordered pair of variables (16 pairs; π, Δt ≠ 0) -/
+theorem model_conv_refines (pi dt : Rat) (hpi : pi ≠ 0) (hdt : dt ≠ 0) (d e : Dom) (g : E) :
+    Model.modelConv pi dt d e g = some (convDom pi dt d e g) := modelConv_refines pi dt hpi hdt d e g
+
+/-- conversions compose: D → E → F is D → F -/
+theorem conv_compose (pi dt : Rat) (hpi : pi ≠ 0) (hdt : dt ≠ 0) (d e f : Dom) (g : E) :
+    convDom pi dt e f (convDom pi dt d e g) = convDom pi dt d f g := convDom_comp pi dt hpi hdt d e f g
+
+/-- f → ω → F → Ω → f through the code's conversion methods is the identity on the class -/
+theorem conv_cycle_identity (pi dt : Rat) (hpi : pi ≠ 0) (hdt : dt ≠ 0) (g : E) :
+    (Model.modelConv pi dt .f .omega g >>= Model.modelConv pi dt .omega .F >>= Model.modelConv pi dt .F .Omega
+      >>= Model.modelConv pi dt .Omega .f) = some g := modelConv_cycle pi dt hpi hdt g
+
+/-- … and so is ANY chain of conversions d → e₁ → … → eₙ → d that returns to its starting variable -/
+theorem conv_chain_identity (pi dt : Rat) (hpi : pi ≠ 0) (hdt : dt ≠ 0) (d : Dom) (path : List Dom) (g : E) :
+    (path ++ [d]).foldl (fun (st : Dom × E) e => (e, convDom pi dt st.1 e st.2)) (d, g) = (d, g) :=
+  convDom_chain pi dt hpi hdt d path g
+
+/-- x(v_E) is x(v_D) re-expressed, and the inverse transform does not depend on the variable the spectrum is written in -/
+theorem ft_dom_conv (pi dt : Rat) (hpi : pi ≠ 0) (hdt : dt ≠ 0) (d e : Dom) (x g : E) :
+    convDom pi dt d e (ftDom pi dt d x) = ftDom pi dt e x ∧ iftDom pi dt e (convDom pi dt d e g) = iftDom pi dt d g := by
+  have hd := Dom.k_ne_zero pi dt hpi hdt d
+  have he := Dom.k_ne_zero pi dt hpi hdt e
+  constructor
+  · simp only [convDom, ftDom, scaleE_scaleE]; congr 1; field_simp
+  · simp only [convDom, iftDom, scaleE_scaleE]; congr 2; field_simp
+
+example : (22 / 7 : Rat) ≠ 0 ∧ (3 / 2 : Rat) ≠ 0 := by norm_num
 
 /-! ## Laplace transform on the jω axis -/
 
@@ -163,6 +207,26 @@ theorem inverse_forward_id_partial (pi : Rat) (t : Term) (ha : t.a ≠ 0)
     (ift pi (ftTerm pi t)).map canonT = [canonT t] :=
   inverse_forward_even pi t ha hk
 
+/-- … on the trapezoid and its spectrum -/
+theorem inverse_forward_id_trap (pi : Rat) (t : Term) (ha : t.a ≠ 0) (hk : (∃ al, t.k = .trap al) ∨ (∃ al, t.k = .sincp al)) :
+    (ift pi (ftTerm pi t)).map canonT = [canonT t] := inverse_forward_trap pi t ha hk
+
+/-- … and on the generalised-function atoms `xⁿ, δ⁽ⁿ⁾, sign, 1/x, |x|, 1/x²` (any order n, any c, phase, modulation θ, scale a ≠ 0,
+    shift b).  What the formal pairing means here: `ftKind` is a table of *asserted* pairs between atoms (no integral exists for
+    them); the theorem says the table is closed under Fourier inversion as an identity of the term algebra over ℚ(j)[π, π⁻¹]
+    (π an indeterminate ≠ 0): transforming twice and reflecting returns the SAME term (same coefficient, phase, modulation,
+    argument), i.e. F⁻¹{F{x}} = x holds on the class by computation with the table rows and the shift/scale/modulation laws.
+    It is a consistency (duality) statement about the pairs the code uses, not a statement about an integral. -/
+theorem inverse_forward_id_generalised (pi : Rat) (hpi : pi ≠ 0) (t : Term) (ha : t.a ≠ 0)
+    (hk : (∃ n, t.k = .pw n) ∨ (∃ n, t.k = .delta n) ∨ t.k = .sgn ∨ t.k = .inv1 ∨ t.k = .absx ∨ t.k = .inv2) :
+    (ift pi (ftTerm pi t)).map canonT = [canonT t] := inverse_forward_generalised pi hpi t ha hk
+
+example : (⟨⟨2, 1⟩, 1 / 4, 3, .delta 2, -2, 1⟩ : Term).a ≠ 0 := by decide
+
+/-- the trapezoid pair is involutive -/
+theorem pair_table_involutive_trap (pi al : Rat) :
+    ftftPairs pi (.trap al) = [(1, .trap al, 1)] ∧ ftftPairs pi (.sincp al) = [(1, .sincp al, 1)] := pair_involutive_trap pi al
+
 /-! ## anchors: where an integral exists the formal pair is the integral -/
 
 /-- ∫₀^∞ e^{−αt} e^{−j2πft} dt = 1/(α + j2πf)  for Re α > 0  (pair `expu 0 α ⟷ cpole 1 α`) -/
@@ -175,6 +239,27 @@ theorem anchor_one_sided_exponential (al : ℂ) (f : ℝ) (h : 0 < al.re) :
 theorem anchor_gaussian :
     FourierTransform.fourier (fun t : ℝ => Complex.exp (-Real.pi * (t : ℂ) ^ 2)) = fun f : ℝ => Complex.exp (-Real.pi * (f : ℂ) ^ 2) :=
   Anchors.gaussian
+
+/-- rect ⟷ sinc:  ∫_{−1/2}^{1/2} e^{−j2πft} dt = sin(πf)/(πf)   (pair `rect ⟷ sinc`) -/
+theorem anchor_rect_sinc (f : ℝ) (hf : f ≠ 0) :
+    ∫ t in (-(1/2) : ℝ)..(1/2), Complex.exp (-((2 * Real.pi * f : ℝ) : ℂ) * Complex.I * t)
+      = ((Real.sin (Real.pi * f) / (Real.pi * f) : ℝ) : ℂ) := Anchors.rect_sinc f hf
+
+/-- tri ⟷ sinc²:  ∫_{−1}^{1} (1 − |t|) e^{−j2πft} dt = (sin(πf)/(πf))²   (pair `tri ⟷ sinc2`) -/
+theorem anchor_tri_sinc2 (f : ℝ) (hf : f ≠ 0) :
+    ∫ t in (-1 : ℝ)..1, ((1 - |t| : ℝ) : ℂ) * Complex.exp (-((2 * Real.pi * f : ℝ) : ℂ) * Complex.I * t)
+      = (((Real.sin (Real.pi * f) / (Real.pi * f)) ^ 2 : ℝ) : ℂ) := Anchors.tri_sinc2 f hf
+
+/-- two-sided exponential: ∫ e^{−α|t|} e^{−j2πft} dt = 1/(α + j2πf) + 1/(α − j2πf) = 2α/(α² + (2πf)²), α > 0 — the sum of the pair
+    `expu 0 α ⟷ cpole 1 α` and of its reflection, which is how the class represents e^{−α|t|} -/
+theorem anchor_two_sided_exponential (al f : ℝ) (h : 0 < al) :
+    ∫ t : ℝ, Complex.exp (-(al : ℂ) * ((|t| : ℝ) : ℂ)) * Complex.exp (-((2 * Real.pi * f : ℝ) : ℂ) * Complex.I * t)
+      = 1 / ((al : ℂ) + ((2 * Real.pi * f : ℝ) : ℂ) * Complex.I) + 1 / ((al : ℂ) - ((2 * Real.pi * f : ℝ) : ℂ) * Complex.I) :=
+  Anchors.two_sided_exponential al f h
+
+theorem anchor_two_sided_exponential_closed (al f : ℝ) (h : 0 < al) :
+    ∫ t : ℝ, Complex.exp (-(al : ℂ) * ((|t| : ℝ) : ℂ)) * Complex.exp (-((2 * Real.pi * f : ℝ) : ℂ) * Complex.I * t)
+      = ((2 * al / (al ^ 2 + (2 * Real.pi * f) ^ 2) : ℝ) : ℂ) := Anchors.two_sided_exponential_closed al f h
 
 /-- `ft_generalised_partial`: the pairs for constants, steps, signum, powers, 1/x, |x| and deltas are *formal*
     generalised-function pairs (no integral exists); what is proved about them is their mutual consistency:
